@@ -42,7 +42,7 @@ theorem splitLines_line (l rest : List Byte) (h : ∀ b ∈ l, b ≠ 10) :
 /-! ## names -/
 
 theorem nameOK_spec (n : List Byte) (h : nameOK n = true) :
-    n ≠ [] ∧ n.length < 100 ∧ (∀ b ∈ n, b ≠ 32 ∧ b ≠ 10 ∧ b ≠ 0) ∧ n.head? ≠ some 35 := by
+    n ≠ [] ∧ n.length < varBufSize ∧ (∀ b ∈ n, b ≠ 32 ∧ b ≠ 10 ∧ b ≠ 0) ∧ n.head? ≠ some 35 := by
   simp only [nameOK, Bool.and_eq_true, bne_iff_ne, ne_eq, decide_eq_true_eq, List.all_eq_true] at h
   exact ⟨h.1.1.1, h.1.1.2, fun b hb => ⟨(h.1.2 b hb).1.1, (h.1.2 b hb).1.2, (h.1.2 b hb).2⟩, h.2⟩
 
@@ -76,20 +76,20 @@ theorem setVar_append (P R : List (Var α)) (x : Var α) (nm : List Byte) (w : V
 
 /-! ## one line of the file -/
 
-theorem restoreLines_nil (F : FloatOps α) (mb : MbLen) (vars : List (Var α)) :
-    restoreLines F mb false [[]] vars = .done vars := by
+theorem restoreLines_nil (F : FloatOps α) (mb : MbLen) (nc : Bool) (vars : List (Var α)) :
+    restoreLines F mb nc [[]] vars = .done vars := by
   simp [restoreLines]
 
-theorem restoreLines_header (F : FloatOps α) (mb : MbLen) (l : List Byte) (rest : List (List Byte))
-    (vars : List (Var α)) : restoreLines F mb false ((35 :: l) :: rest) vars = restoreLines F mb false rest vars := by
+theorem restoreLines_header (F : FloatOps α) (mb : MbLen) (nc : Bool) (l : List Byte) (rest : List (List Byte))
+    (vars : List (Var α)) : restoreLines F mb nc ((35 :: l) :: rest) vars = restoreLines F mb nc rest vars := by
   simp [restoreLines]
 
 /-- the line of a non-static variable whose text restores to `w` -/
-theorem restoreLines_var (F : FloatOps α) (mb : MbLen) (P R : List (Var α)) (x : Var α) (t : List Byte)
+theorem restoreLines_var (F : FloatOps α) (mb : MbLen) (nc : Bool) (P R : List (Var α)) (x : Var α) (t : List Byte)
     (rest : List (List Byte)) (w : Value α) (hn : nameOK x.name = true) (hP : ∀ p ∈ P, p.name ≠ x.name)
     (hx : x.isStatic = false) (hr : restoreSvalue F mb t = .ok w) :
-    restoreLines F mb false ((x.name ++ 32 :: t) :: rest) (P ++ x :: R) =
-      restoreLines F mb false rest (P ++ { x with val := w } :: R) := by
+    restoreLines F mb nc ((x.name ++ 32 :: t) :: rest) (P ++ x :: R) =
+      restoreLines F mb nc rest (P ++ { x with val := w } :: R) := by
   obtain ⟨hne, hlen, hby, hhead⟩ := nameOK_spec x.name hn
   have htw := takeWhile_name x.name t (fun b hb => (hby b hb).1)
   have hl0 : x.name ++ 32 :: t ≠ [] := by simp
@@ -101,8 +101,11 @@ theorem restoreLines_var (F : FloatOps α) (mb : MbLen) (P R : List (Var α)) (x
     rw [show x.name ++ 32 :: t = (x.name ++ [32]) ++ t by simp]
     rw [List.drop_append_of_le_length (by simp)]
     simp
-  have hlen2 : ¬ (x.name.length = (x.name ++ 32 :: t).length ∨ x.name.length ≥ 100) := by
-    simp only [List.length_append, List.length_cons]; omega
+  have hlen2 : ¬ (x.name.length = (x.name ++ 32 :: t).length ∨ x.name.length ≥ varBufSize) := by
+    intro h
+    rcases h with h | h
+    · simp only [List.length_append, List.length_cons] at h; omega
+    · exact absurd hlen (Nat.not_lt.2 h)
   rw [restoreLines]
   simp only [hl0, hh, htw, hlen2, hdrop, ↓reduceIte, find_append P R x x.name hP rfl, hx, hr,
     setVar_append P R x x.name w hP rfl]
@@ -231,7 +234,7 @@ theorem restoreLines_body (F : FloatOps α) (mb : MbLen) (z : Bool) : ∀ (ss ls
             · omega
             · exact save_nl F s.val hsav b hb
           rw [e1, splitLines_line _ _ hnl, List.map_cons, e2]
-          have hstep := restoreLines_var F mb P (ls'.map clearVar) ⟨s.name, false, .int 0⟩ (save F s.val)
+          have hstep := restoreLines_var F mb false P (ls'.map clearVar) ⟨s.name, false, .int 0⟩ (save F s.val)
             (splitLines (saveLines F z ss').flatten) w (hname s (by simp)) hPs rfl hw1
           rw [hstep]
           simpa using hrs
@@ -311,6 +314,159 @@ theorem object_roundtrip {α : Type} (F : FloatOps α) (mb : MbLen) (prog : List
   simp only [List.nil_append] at hrs
   rw [restoreObject_some F mb _ live hne, hcs, hsplit, restoreLines_header, hrs]
 
+/-! ## restore_object(file, 1): no clearing -/
+
+/-- what `restore_object(file, 1)` must leave in the object: as `ObjRestored`, but a non-static variable that the
+    save did not write (its text is "0" and zeros are not saved) keeps its live value -/
+inductive ObjRestoredNC (F : FloatOps α) (z : Bool) : List (Var α) → List (Var α) → List (Var α) → Prop
+  | nil : ObjRestoredNC F z [] [] []
+  | static (s l : Var α) (ss ls rs : List (Var α)) : s.isStatic = true → l.isStatic = true → l.name = s.name →
+      ObjRestoredNC F z ss ls rs → ObjRestoredNC F z (s :: ss) (l :: ls) (l :: rs)
+  | saved (s l : Var α) (x : Value α) (ss ls rs : List (Var α)) : s.isStatic = false → l.isStatic = false →
+      l.name = s.name → (z = true ∨ save F s.val ≠ [48]) → Equiv F (erase s.val) x →
+      ObjRestoredNC F z ss ls rs → ObjRestoredNC F z (s :: ss) (l :: ls) (⟨s.name, false, x⟩ :: rs)
+  | kept (s l : Var α) (ss ls rs : List (Var α)) : s.isStatic = false → l.isStatic = false → l.name = s.name →
+      z = false → save F s.val = [48] → ObjRestoredNC F z ss ls rs →
+      ObjRestoredNC F z (s :: ss) (l :: ls) (l :: rs)
+
+theorem restoreLines_body_nc (F : FloatOps α) (mb : MbLen) (z : Bool) : ∀ (ss ls P : List (Var α)),
+    ls.map (·.name) = ss.map (·.name) → ls.map (·.isStatic) = ss.map (·.isStatic) →
+    (∀ v ∈ ss, nameOK v.name = true) → (ss.map (·.name)).Nodup →
+    (∀ v ∈ ss, v.isStatic = false → Savable F v.val) →
+    (∀ p ∈ P, p.name ∉ ss.map (·.name)) →
+    ∃ rs, restoreLines F mb true (splitLines (saveLines F z ss).flatten) (P ++ ls) =
+        .done (P ++ rs) ∧ ObjRestoredNC F z ss ls rs := by
+  intro ss
+  induction ss with
+  | nil =>
+    intro ls P hn _ _ _ _ _
+    cases ls with
+    | cons l ls' => simp at hn
+    | nil =>
+      refine ⟨[], ?_, ObjRestoredNC.nil⟩
+      simp [saveLines, splitLines, restoreLines_nil]
+  | cons s ss' ih =>
+    intro ls P hn hst hname hnd hsv hP
+    cases ls with
+    | nil => simp at hn
+    | cons l ls' =>
+      simp only [List.map_cons, List.cons.injEq] at hn hst
+      obtain ⟨hln, hn'⟩ := hn
+      obtain ⟨hls, hst'⟩ := hst
+      have hname' : ∀ v ∈ ss', nameOK v.name = true := fun v hv => hname v (by simp [hv])
+      have hsv' : ∀ v ∈ ss', v.isStatic = false → Savable F v.val := fun v hv => hsv v (by simp [hv])
+      rw [List.map_cons, List.nodup_cons] at hnd
+      obtain ⟨hsn, hnd'⟩ := hnd
+      have hP' : ∀ y : Var α, y.name = s.name → ∀ p ∈ P ++ [y], p.name ∉ ss'.map (·.name) := by
+        intro y hy p hp
+        rcases List.mem_append.1 hp with hp | hp
+        · have := hP p hp
+          simp only [List.map_cons, List.mem_cons, not_or] at this
+          exact this.2
+        · simp only [List.mem_singleton] at hp
+          rw [hp, hy]; exact hsn
+      have hPl : ∀ p ∈ P, p.name ≠ l.name := by
+        intro p hp
+        have := hP p hp
+        simp only [List.map_cons, List.mem_cons, not_or] at this
+        rw [hln]; exact this.1
+      by_cases hs : s.isStatic = true
+      · have hl : l.isStatic = true := by rw [hls, hs]
+        obtain ⟨rs, hrs, ho⟩ := ih ls' (P ++ [l]) hn' hst' hname' hnd' hsv' (hP' l hln)
+        refine ⟨l :: rs, ?_, ObjRestoredNC.static s l ss' ls' rs hs hl hln ho⟩
+        have e1 : saveLines F z (s :: ss') = saveLines F z ss' := by simp [saveLines, hs]
+        rw [e1]
+        simpa using hrs
+      · have hs' : s.isStatic = false := by simpa using hs
+        have hl : l.isStatic = false := by rw [hls, hs']
+        have hsav := hsv s (by simp) hs'
+        by_cases hw : (z || save F s.val != [48]) = true
+        · obtain ⟨w, hw1, hw2⟩ := restoreSvalue_save F mb s.val hsav
+          have hcond : z = true ∨ save F s.val ≠ [48] := by
+            cases z <;> simp at hw ⊢
+            exact hw
+          obtain ⟨rs, hrs, ho⟩ := ih ls' (P ++ [⟨s.name, false, w⟩]) hn' hst' hname' hnd' hsv'
+            (hP' ⟨s.name, false, w⟩ rfl)
+          refine ⟨⟨s.name, false, w⟩ :: rs, ?_,
+            ObjRestoredNC.saved s l w ss' ls' rs hs' hl hln hcond hw2 ho⟩
+          have e1 : (saveLines F z (s :: ss')).flatten =
+              (l.name ++ 32 :: save F s.val) ++ 10 :: (saveLines F z ss').flatten := by
+            simp [saveLines, hs', hw, hln]
+          have hlname : nameOK l.name = true := by rw [hln]; exact hname s (by simp)
+          obtain ⟨_, _, hby, _⟩ := nameOK_spec l.name hlname
+          have hnl : ∀ b ∈ l.name ++ 32 :: save F s.val, b ≠ 10 := by
+            intro b hb
+            simp only [List.mem_append, List.mem_cons] at hb
+            rcases hb with hb | rfl | hb
+            · exact (hby b hb).2.1
+            · omega
+            · exact save_nl F s.val hsav b hb
+          rw [e1, splitLines_line _ _ hnl]
+          have hstep := restoreLines_var F mb true P ls' l (save F s.val)
+            (splitLines (saveLines F z ss').flatten) w hlname hPl hl hw1
+          rw [hstep]
+          have e3 : ({ l with val := w } : Var α) = ⟨s.name, false, w⟩ := by rw [hln, hl]
+          rw [e3]
+          simpa using hrs
+        · have hz : z = false ∧ save F s.val = [48] := by
+            cases z <;> simp at hw ⊢
+            exact hw
+          obtain ⟨rs, hrs, ho⟩ := ih ls' (P ++ [l]) hn' hst' hname' hnd' hsv' (hP' l hln)
+          refine ⟨l :: rs, ?_, ObjRestoredNC.kept s l ss' ls' rs hs' hl hln hz.1 hz.2 ho⟩
+          have e1 : saveLines F z (s :: ss') = saveLines F z ss' := by
+            simp [saveLines, hs', hz.1, hz.2]
+          rw [e1]
+          simpa using hrs
+
+theorem restoreObject_some_nc (F : FloatOps α) (mb : MbLen) (t : List Byte) (live : List (Var α)) (ht : t ≠ []) :
+    restoreObject F mb true (some t) live = (1, restoreLines F mb true (splitLines (cstr t)) live) := by
+  cases t with
+  | nil => exact absurd rfl ht
+  | cons c r => rfl
+
+/-- **Object round trip without clearing** (`restore_object(file, 1)`): static variables untouched, every
+    written variable holds the saved value, a variable that was not written (text "0", zeros not saved) keeps its
+    live value. -/
+theorem object_roundtrip_noclear {α : Type} (F : FloatOps α) (mb : MbLen) (prog : List Byte) (z : Bool)
+    (vars live : List (Var α))
+    (hprog : ∀ b ∈ prog, b ≠ 10 ∧ b ≠ 0)
+    (hs : objSavable vars = true)
+    (hf : ∀ v ∈ vars, v.isStatic = false → FloatsOK F v.val)
+    (hlay : live.map (·.name) = vars.map (·.name) ∧ live.map (·.isStatic) = vars.map (·.isStatic)) :
+    ∃ res, restoreObject F mb true (some (saveFileText F prog z vars)) live = (1, RoOut.done res) ∧
+      ObjRestoredNC F z vars live res := by
+  obtain ⟨hname, hnd, hsav⟩ := objSavable_spec vars hs
+  have hsv : ∀ v ∈ vars, v.isStatic = false → Savable F v.val :=
+    fun v hv hst => savable_bridge F v.val (hsav v hv hst) (hf v hv hst)
+  obtain ⟨rs, hrs, ho⟩ := restoreLines_body_nc F mb z vars live [] hlay.1 hlay.2 hname hnd hsv (by simp)
+  refine ⟨rs, ?_, ho⟩
+  have htext : saveFileText F prog z vars = (35 :: 47 :: prog) ++ 10 :: (saveLines F z vars).flatten := by
+    simp [saveFileText, headerLine]
+  have hnz : ∀ b ∈ saveFileText F prog z vars, b ≠ 0 := by
+    intro b hb
+    rw [htext] at hb
+    simp only [List.mem_append, List.mem_cons] at hb
+    rcases hb with (rfl | rfl | hb) | rfl | hb
+    · omega
+    · omega
+    · exact (hprog b hb).2
+    · omega
+    · exact saveLines_nz F z vars hname hsv b hb
+  have hnl : ∀ b ∈ 35 :: 47 :: prog, b ≠ 10 := by
+    intro b hb
+    simp only [List.mem_cons] at hb
+    rcases hb with rfl | rfl | hb
+    · omega
+    · omega
+    · exact (hprog b hb).1
+  have hcs := cstr_eq_self _ hnz
+  have hsplit : splitLines (saveFileText F prog z vars) =
+      (35 :: 47 :: prog) :: splitLines (saveLines F z vars).flatten := by
+    rw [htext, splitLines_line _ _ hnl]
+  have hne : saveFileText F prog z vars ≠ [] := by rw [htext]; simp
+  simp only [List.nil_append] at hrs
+  rw [restoreObject_some_nc F mb _ live hne, hcs, hsplit, restoreLines_header, hrs]
+
 /-! ## non-vacuity -/
 
 /-- a static variable, a variable with a deeply nested value, a variable holding 0 (not written unless
@@ -337,5 +493,13 @@ example (mb : MbLen) (z : Bool) :
         (1, RoOut.done res) ∧ ObjRestored rtF objExample objLive res :=
   object_roundtrip rtF mb [97, 47, 98] z objExample objLive (by decide) objExample_savable objExample_floats
     ⟨rfl, rfl⟩
+
+/-- the same object restored without clearing: with `z = false` the variable `[122]` (saved value 0, not
+    written) keeps its live value `""` -/
+example (mb : MbLen) (z : Bool) :
+    ∃ res, restoreObject rtF mb true (some (saveFileText rtF [97, 47, 98] z objExample)) objLive =
+        (1, RoOut.done res) ∧ ObjRestoredNC rtF z objExample objLive res :=
+  object_roundtrip_noclear rtF mb [97, 47, 98] z objExample objLive (by decide) objExample_savable
+    objExample_floats ⟨rfl, rfl⟩
 
 end NV.C16
